@@ -57,7 +57,16 @@ def tally(ctx, jobs, pathkey):
 def slice_for(lines, lno):
     """Fam line + the events needed to replay the failing line lno (1-based): the Case itself, or the k Cases of a Batch."""
     fam = json.loads(lines[0]); ev = json.loads(lines[lno - 1])
-    if ev["e"] == "Batch":
+    if ev["e"] == "Batch" and "idx" in ev:      # C09: the whole group since the last reset, filler paths left out (the harness regenerates them)
+        cases = []; i = lno - 2
+        while i >= 1:
+            x = json.loads(lines[i])
+            if x["e"] == "Fam" or (x["e"] == "Batch" and x.get("last") == 1):
+                break
+            if x["e"] == "Case" and not x.get("fill"):
+                cases.insert(0, x)
+            i -= 1
+    elif ev["e"] == "Batch":
         cases = [json.loads(x) for x in lines[lno - 1 - ev["k"]:lno - 1]]
     else:
         cases = [ev]
